@@ -17,12 +17,13 @@ from gvmon.monitors import contracts, sqltrace
 RULE = ("files of n in {1,2,3,5,10,11,12,25,40} (rarely 1001-2100) feature lines rendered in one of 48 dialect points (uniform regime: every "
         "line exhibits every dialect feature; sparse regime: arbitrary line shapes, kept only when the reference vote "
         "recovers the dialect), x checklines in {0,1,2,10,n-1,n,n+2} x {file,:memory:} x {error+unique ids, "
-        "create_unique+duplicate ids} x keep_order x sort_attribute_values x {path, from_string}, with '.' coordinates, "
+        "create_unique+duplicate ids} x keep_order x sort_attribute_values x {path, gzip path, from_string} x {LF, CRLF}, 4% after an import of the same text with ignore_url_escape_characters on, with '.' coordinates, "
         "extra columns, empty attribute columns and interleaved comments/blanks/directives; non-trivial = >= 2 lines and "
         ">= 1 multi-valued or escaped value; distinct = distinct (dialect point, n-vs-checklines class, config) tuples "
         "hashed together with the file text")
 REQUIRED = ["imports", "stored features compared", "byte-identical prints", "reopen comparisons", "re-import comparisons",
-            "sql: INSERT INTO features"]
+            "sql: INSERT INTO features", "imports from gzip files", "imports from CRLF files",
+            "imports after the same text was imported with ignore_url_escape_characters switched on"]
 REQUIRED_CLASSES = ["fmt=gff3", "fmt=gtf", "fmt=gff2", "fmt=gff3q", "db=file", "db=memory", "strategy=error", "strategy=create_unique",
                     "regime=uniform", "regime=sparse"]
 ASSUMPTIONS = [
@@ -67,7 +68,10 @@ def gen_case(rng):
         "kind": "import", "D": D, "regime": regime, "n": n, "checklines": ck,
         "db": rng.choice(["file", "file", "memory"]), "strategy": strategy,
         "keep_order": rng.random() < 0.7, "sort_values": rng.random() < 0.2,
-        "input": rng.choice(["path", "path", "string"]), "final_newline": rng.random() < 0.85,
+        "input": rng.choice(["path", "path", "string", "gz"]), "final_newline": rng.random() < 0.85,
+        "eol": "\r\n" if rng.random() < 0.15 else "\n",
+        # the same text was imported earlier in this process while constants.ignore_url_escape_characters was switched on
+        "prelude": rng.random() < 0.04,
         "items": items,
     }
 
@@ -112,16 +116,38 @@ def execute(ctx, case):
     text = F.text_of(items, D, final_newline=case["final_newline"])
     lines = F.feature_lines(items, D)
     dbfn = ":memory:" if case["db"] == "memory" else ctx.tmp(".db")
-    if case["input"] == "path":
-        src = ctx.tmp(".gff")
-        with open(src, "w", encoding="utf-8", newline="") as fh:
-            fh.write(text)
+    eol = case.get("eol", "\n")
+    if case["input"] in ("path", "gz"):
+        # line ends are part of the file, not of the lines: CRLF files and gzip files hold the same features
+        ftext = text.replace("\n", eol)
+        if case["input"] == "gz":
+            import gzip
+            src = ctx.tmp(".gff.gz")
+            with gzip.open(src, "wb") as fh:
+                fh.write(ftext.encode("utf-8"))
+            ctx.mon("imports from gzip files")
+        else:
+            src = ctx.tmp(".gff")
+            with open(src, "w", encoding="utf-8", newline="") as fh:
+                fh.write(ftext)
+        if eol != "\n":
+            ctx.mon("imports from CRLF files")
         data, from_string = src, False
     else:
         data, from_string = text, True
-    sqltrace.reset()
     kw = dict(checklines=ck, merge_strategy=case["strategy"], keep_order=case["keep_order"],
               sort_attribute_values=case["sort_values"], from_string=from_string)
+    if case.get("prelude"):
+        from gffutils import constants
+        constants.ignore_url_escape_characters = True
+        try:
+            gffutils.create_db(text, ":memory:", **dict(kw, from_string=True)).conn.close()
+        except Exception:
+            pass
+        finally:
+            constants.ignore_url_escape_characters = False
+        ctx.mon("imports after the same text was imported with ignore_url_escape_characters switched on")
+    sqltrace.reset()
     try:
         db = gffutils.create_db(data, dbfn, **kw)
     except Exception as ex:
